@@ -22,8 +22,16 @@ ERR = {
     "unbalanced": "SELECT (a FROM t",
     "tmp_undefined": "SELECT {{ undefined_var }} FROM t",
     "tmp_fatal": "SELECT {% if %} FROM t",
+    # the error sits in the rendering that is actually taken; an unreached branch gives a second, error-free variant
+    "prs_var": "SELECT {% if true %}a b c{% else %}a{% endif %} FROM t",
+    "unbalanced_var": "SELECT a FROM t WHERE {% if true %}(b = 1{% else %}b = 1{% endif %}",
+    "tmp_var": "SELECT {% if true %}{{ undefined_var }}{% else %}a{% endif %} FROM t",
 }
-FIXABLE = {"none": "SELECT a FROM t", "lt01": "SELECT a  FROM t", "cp01": "SELECT a from t", "both": "SELECT a  from t"}
+FIXABLE = {
+    "none": "SELECT a FROM t", "lt01": "SELECT a  FROM t", "cp01": "SELECT a from t", "both": "SELECT a  from t",
+    # two rendering variants needing a different number of fix passes (loop-limit axis only)
+    "var2": "{% if true %}SELECT b  FROM tbl2{% else %}SELECT upper(foo), bar  from blah{% endif %}",
+}
 # suppression: (noqa comment on the error line, config lines, cli flags)
 SUPP = {
     "none": (None, [], []),
@@ -72,7 +80,7 @@ def scenario_cfg(s):
 def scenarios(tier):
     out = []
     for err, fx, supp, feu in itertools.product(ERR, FIXABLE, SUPP, (False, True)):
-        if err == "none" and supp != "none":
+        if (err == "none" and supp != "none") or fx == "var2":
             continue
         out.append({"err": err, "fix": fx, "supp": supp, "feu": feu})
     # warnings axis (C22) and loop limit axis (C18)
@@ -102,6 +110,30 @@ def mkdir(s, tag):
     with open(os.path.join(d, FN), "w", newline="") as f:
         f.write(scenario_text(s))
     return d
+
+
+import contextlib
+
+
+@contextlib.contextmanager
+def loop_limit_spy():
+    """Witness that the fix loop gave up: the linter's own 'Loop limit on fixes reached' warning (harness-side
+    patch of the module logger's warning method; the list is non-empty iff it was emitted)."""
+    from sqlfluff.core.linter import linter as _l
+
+    hits = []
+    orig = _l.linter_logger.warning
+
+    def spy(msg, *a, **k):
+        if "Loop limit" in str(msg):
+            hits.append(str(msg))
+        return orig(msg, *a, **k)
+
+    _l.linter_logger.warning = spy
+    try:
+        yield hits
+    finally:
+        _l.linter_logger.warning = orig
 
 
 def records_of(out):
@@ -141,11 +173,13 @@ def observe(s, want=("lint", "fix", "format", "api", "lint_paths")):
         if cmd not in want:
             continue
         d = mkdir(s, cmd[0] + "p")
-        rc, out, err, exc = cli.run([cmd, FN] + flags, cwd=d)
-        obs[cmd + "_path"] = {"rc": rc, "text": open(os.path.join(d, FN), newline="").read(), "exc": exc}
+        with loop_limit_spy() as hit:
+            rc, out, err, exc = cli.run([cmd, FN] + flags, cwd=d)
+        obs[cmd + "_path"] = {"rc": rc, "text": open(os.path.join(d, FN), newline="").read(), "exc": exc, "loop_limit": bool(hit)}
         d = mkdir(s, cmd[0] + "s")
-        rc, out, err, exc = cli.run([cmd, "-", "--stdin-filename", FN] + flags, input=text, cwd=d)
-        obs[cmd + "_stdin"] = {"rc": rc, "text": out, "exc": exc, "file_after": open(os.path.join(d, FN), newline="").read()}
+        with loop_limit_spy() as hit:
+            rc, out, err, exc = cli.run([cmd, "-", "--stdin-filename", FN] + flags, input=text, cwd=d)
+        obs[cmd + "_stdin"] = {"rc": rc, "text": out, "exc": exc, "file_after": open(os.path.join(d, FN), newline="").read(), "loop_limit": bool(hit)}
     if "api" in want or "lint_paths" in want:
         from sqlfluff.core import FluffConfig, Linter
 
@@ -180,8 +214,9 @@ def observe(s, want=("lint", "fix", "format", "api", "lint_paths")):
             try:
                 cfg = FluffConfig.from_path(FN, overrides=ov or None)
                 lnt = Linter(config=cfg)
-                res = lnt.lint_paths((FN,), fix=True, apply_fixes=True, fix_even_unparsable=bool(s.get("feu")))
-                obs["fix_lint_paths"] = {"text": open(FN, newline="").read()}
+                with loop_limit_spy() as hit:
+                    res = lnt.lint_paths((FN,), fix=True, apply_fixes=True, fix_even_unparsable=bool(s.get("feu")))
+                obs["fix_lint_paths"] = {"text": open(FN, newline="").read(), "loop_limit": bool(hit)}
             except Exception as e:
                 obs["fix_lint_paths"] = {"exc": repr(e)[:300]}
             finally:
